@@ -38,6 +38,9 @@ def answer : List String → String
   | ["matdens", r, d] => match parseRat? r, parseRat? d with
       | some r, some d => if 1 + d / 100 = 0 then "reject" else showRat (matDensity r d) ++ " " ++ showRat (matPseudoDensity r d)
       | _, _ => "bad-op"
+  | ["polyeval", cs, x] => match parseRatList? cs, parseRat? x with
+      | some cs, some x => showRat (polyEval cs x)
+      | _, _ => "bad-op"
   | _ => "bad-op"
 
 def main : IO Unit := loop answer
